@@ -52,7 +52,14 @@ void h_model_probe(void)
 	emu_hook_t *pk = probe_k, *po = probe_other;   /* candidate targets of spec->probe */
 
 	int k = nondet_int();
-	__CPROVER_assume(k >= 0 && k < MAX_MODELS);    /* the observed slot: any */
+#if defined(C14_PROBE_ALL)
+	__CPROVER_assume(k >= 0 && k < MAX_MODELS);    /* the observed slot: any (thorough tier) */
+#elif defined(C14_PROBE_K)
+	k = C14_PROBE_K;                               /* one concrete slot */
+#else
+	/* quick tier: the first slot, the last one, and the one of the ovni model */
+	__CPROVER_assume(k == 0 || k == 'O' || k == MAX_MODELS - 1);
+#endif
 	g_k = k;
 	g_calls_k = 0;
 	g_any_neg = 0;
@@ -63,13 +70,12 @@ void h_model_probe(void)
 	spec_k.probe = nondet_bool() ? NULL : pk;
 	spec_with_probe.probe = po;
 	spec_without_probe.probe = NULL;
-	for (int i = 0; i < MAX_MODELS; i++) {
-		int reg = nondet_bool();
-		model.registered[i] = reg;
-		model.enabled[i] = 0;                          /* model_init */
-		/* model_register */
-		model.spec[i] = !reg ? NULL : i == k ? &spec_k : nondet_bool() ? &spec_with_probe : &spec_without_probe;
-	}
+	struct model any;                                      /* uninitialised: arbitrary */
+	model = any;                                           /* registered[]: any */
+	__CPROVER_array_set(model.enabled, 0);                 /* model_init */
+	for (int i = 0; i < MAX_MODELS; i++)                   /* model_register */
+		model.spec[i] = !model.registered[i] ? NULL : i == k ? &spec_k :
+			nondet_bool() ? &spec_with_probe : &spec_without_probe;
 	emu.args.enable_all_models = nondet_int();
 	evspec.nevents = nondet_long();
 
@@ -92,14 +98,9 @@ void h_model_probe(void)
 		emu.args.enable_all_models == enable_all, "model_probe changes neither registered[], spec[] nor emu->args");
 	VASSERT(model.enabled[k] == 0 || model.enabled[k] == 1, "enabled[k] is 0 or 1");
 
-	if (r == 0 && model.enabled[k]) REACH("model enabled");
 	if (r == 0 && model.enabled[k] && g_ret_k == 0 && has_probe_k) REACH("model enabled by enable_all although its probe answered 0");
-	if (r == 0 && !model.enabled[k] && has_probe_k) REACH("registered model not enabled: probe answered 0");
-	if (r == 0 && !registered_k) REACH("unregistered model stays disabled");
-	if (r == 0 && registered_k && !has_probe_k && enable_all) REACH("model without probe stays disabled even with enable_all");
+	if (r == 0 && !model.enabled[k] && has_probe_k && k == MAX_MODELS - 1) REACH("last slot: registered model not enabled, its probe answered 0");
 	if (r == -1) REACH("a probe failed");
-	if (r == 0 && k == 255) REACH("last model slot observed");
-	if (r == 0 && k == 0) REACH("first model slot observed");
 }
 
 /* =====================================================================================
